@@ -531,8 +531,32 @@ def make_fileset(case):
         kw["info_via"] = cfg["via"]
     if cfg["coverage"] is not None:
         kw["time_coverage"] = dt.timedelta(microseconds=cfg["coverage"])
+    if placeholder and late_placeholders(case):
+        # history: the same configuration reached step by step on one object -- build with the default regexes, use the
+        # object once (parse / get_info of a name, whatever comes out), then narrow the user placeholders with
+        # set_placeholders(); from here on it must behave exactly like the object configured through the constructor
+        fs = FileSet(template_string(merge_lits(path_tokens)), **kw)
+        try:
+            # (names other than the one under test: get_info keeps a path-keyed cache, which is C15's business)
+            toks = [tuple(t) for t in case["tokens"]]
+            day = dt.timedelta(days=1)
+            warm = [own_render(toks, of_us(case["s"]), of_us(case["e"]), case["fill"])[0] + ".warm"]
+            if of_us(case["e"]) < dt.datetime.max - 2 * day:
+                warm.append(own_render(toks, of_us(case["s"]) + day, of_us(case["e"]) + day, case["fill"])[0])
+            for w in warm:
+                guard(lambda: dict(fs.parse_filename(w)))
+                guard(lambda: info_obs(fs, w))
+        except Exception:  # noqa
+            pass
+        fs.set_placeholders(**placeholder)
+        return fs
     fs = FileSet(template_string(merge_lits(path_tokens)), placeholder=placeholder or None, **kw)
     return fs
+
+
+def late_placeholders(case):
+    import zlib
+    return zlib.crc32(repr((case["tokens"], case["s"])).encode()) % 3 == 0
 
 
 def info_obs(fs, name):
